@@ -257,7 +257,11 @@ impl Runner {
                         self.stats.inc("c15.with_gc_bytes");
                     }
                 }
-                let rejected = matches!(ex.outcome, Outcome::ErrExists | Outcome::ErrMissing | Outcome::ErrPast | Outcome::Appended(None, _));
+                // "rejected or no-op" is what the SPECIFICATION says about the call (a call that wrongly
+                // reports success is exactly what must not slip through); what the call itself
+                // reports counts too
+                let is_rej = |o: &Outcome| matches!(o, Outcome::ErrExists | Outcome::ErrMissing | Outcome::ErrPast | Outcome::Appended(None, _));
+                let rejected = is_rej(&ex.outcome) || is_rej(&expected);
                 if rejected {
                     self.stats.inc("c13.rejected_or_noop");
                     let touched = ex.events.iter().any(|e| !matches!(e, Event::ListDir));
